@@ -277,8 +277,10 @@ fn child(job: &str) {
     let prog = Program::parse(parts[0]);
     let shard: usize = parts[1].parse().unwrap();
     let nshards: usize = parts[2].parse().unwrap();
-    let bound: usize = parts[3].parse().unwrap();
-    let cfg = vsched::Config { preemption_bound: bound, max_steps: 5_000, exec_timeout: Duration::from_secs(30), record_trace: false, max_executions: u64::MAX };
+    // "2" = at most 2 preemptions (free choices unbounded); "d1" = at most 1 deviation of any kind.
+    let all_dev = parts[3].starts_with('d');
+    let bound: usize = parts[3].trim_start_matches('d').parse().unwrap();
+    let cfg = vsched::Config { preemption_bound: bound, max_steps: 5_000, exec_timeout: Duration::from_secs(30), record_trace: false, max_executions: u64::MAX, count_all_deviations: all_dev };
     let p2 = prog.clone();
     let body = move || execution(&p2);
     if shard == 0 {
@@ -309,27 +311,41 @@ fn child(job: &str) {
 }
 
 /// The program family with the preemption bound each program is explored at.
-fn programs(thorough: bool) -> Vec<(Program, usize)> {
+fn programs(thorough: bool) -> Vec<(Program, String)> {
     use SpawnKind::*;
-    let mut v: Vec<(Program, usize)> = Vec::new();
+    let mut v: Vec<(Program, String)> = Vec::new();
     let seqs1: Vec<Vec<SpawnKind>> = vec![vec![Regular], vec![Urgent], vec![Forget]];
     let seqs2: Vec<Vec<SpawnKind>> = vec![vec![Regular, Regular], vec![Regular, Urgent], vec![Urgent, Regular], vec![Forget, Regular], vec![Regular, Forget]];
     // Process and thread creation is serialised system-wide on this VM (~300 executions/s in
     // total, whatever the number of cores), so the tiers are budgeted in executions: quick
     // ~10k, thorough ~400k.
-    let deep = if thorough { 3 } else { 1 };
-    let wide = if thorough { 2 } else { 1 };
+    let deep = "2".to_string();
+    let wide = "1".to_string();
+    let many = "d2".to_string(); // programs with >= 5 threads: deviation bound
+    if !thorough {
+        // Quick tier: an explicit small family (about 6k executions in total).
+        let mk = |processors, w, spawners: Vec<(usize, Vec<SpawnKind>)>, concurrent_drop, keep_scheduler| Program { processors, workers_per_processor: w, spawners, concurrent_drop, keep_scheduler };
+        v.push((mk(1, 1, vec![(0, vec![Regular])], false, false), "1".into()));
+        v.push((mk(1, 1, vec![(0, vec![Regular])], true, false), "1".into()));
+        v.push((mk(1, 1, vec![(0, vec![Regular])], true, true), "1".into()));
+        v.push((mk(1, 1, vec![(0, vec![Forget])], true, false), "1".into()));
+        v.push((mk(1, 1, vec![(0, vec![Urgent, Regular])], false, false), "1".into()));
+        v.push((mk(1, 2, vec![(0, vec![Regular])], true, true), "d1".into()));
+        v.push((mk(2, 1, vec![(0, vec![Regular]), (1, vec![Regular])], false, false), "d1".into()));
+        v.push((mk(1, 1, vec![(0, vec![Regular]), (0, vec![Regular])], true, true), "d2".into()));
+        return v;
+    }
     for (concurrent_drop, keep_scheduler) in [(false, false), (true, false), (true, true)] {
         // one spawner, one processor, one worker: the core programs get the deepest bound
-        v.push((Program { processors: 1, workers_per_processor: 1, spawners: vec![(0, vec![Regular])], concurrent_drop, keep_scheduler }, deep));
+        v.push((Program { processors: 1, workers_per_processor: 1, spawners: vec![(0, vec![Regular])], concurrent_drop, keep_scheduler }, deep.clone()));
         let more: Vec<Vec<SpawnKind>> = if thorough { seqs1.iter().skip(1).chain(seqs2.iter()).cloned().collect() } else { vec![vec![Forget], vec![Urgent, Regular]] };
         for ops in &more {
-            v.push((Program { processors: 1, workers_per_processor: 1, spawners: vec![(0, ops.clone())], concurrent_drop, keep_scheduler }, wide));
+            v.push((Program { processors: 1, workers_per_processor: 1, spawners: vec![(0, ops.clone())], concurrent_drop, keep_scheduler }, wide.clone()));
         }
         // two workers on the processor
         let w2: Vec<Vec<SpawnKind>> = if thorough { seqs1.iter().chain(seqs2.iter()).cloned().collect() } else { vec![vec![Regular]] };
         for ops in &w2 {
-            v.push((Program { processors: 1, workers_per_processor: 2, spawners: vec![(0, ops.clone())], concurrent_drop, keep_scheduler }, wide));
+            v.push((Program { processors: 1, workers_per_processor: 2, spawners: vec![(0, ops.clone())], concurrent_drop, keep_scheduler }, wide.clone()));
         }
         // two spawners, same processor / different processors
         let pairs: Vec<(Vec<SpawnKind>, Vec<SpawnKind>)> = if thorough {
@@ -342,7 +358,7 @@ fn programs(thorough: bool) -> Vec<(Program, usize)> {
                 continue;
             }
             for (a, b) in &pairs {
-                v.push((Program { processors: procs, workers_per_processor: 1, spawners: vec![(pa, a.clone()), (pb, b.clone())], concurrent_drop, keep_scheduler }, wide));
+                v.push((Program { processors: procs, workers_per_processor: 1, spawners: vec![(pa, a.clone()), (pb, b.clone())], concurrent_drop, keep_scheduler }, many.clone()));
             }
         }
     }
@@ -356,9 +372,9 @@ fn main() {
     }
     let thorough = vcommon::is_thorough();
     let mut c = Check::new("C14", "model_checking");
-    let bound_override: Option<usize> = std::env::var("C14_BOUND").ok().and_then(|s| s.parse().ok());
+    let bound_override: Option<String> = std::env::var("C14_BOUND").ok();
     let progs = programs(thorough);
-    let bound = progs.iter().map(|(_, b)| *b).max().unwrap_or(0);
+    let bound = progs.iter().map(|(_, b)| b.clone()).collect::<std::collections::BTreeSet<_>>().into_iter().collect::<Vec<_>>().join("/");
     if let Ok(path) = std::env::var("VERIF_REPLAY") {
         let v: Value = vcommon::serde_json::from_str(&std::fs::read_to_string(&path).expect("replay file")).expect("json");
         hooks();
@@ -373,7 +389,7 @@ fn main() {
     let mut jobs = Vec::new();
     for (p, b) in &progs {
         for s in 0..nshards {
-            jobs.push(format!("{}|{}|{}|{}", p.name(), s, nshards, bound_override.unwrap_or(*b)));
+            jobs.push(format!("{}|{}|{}|{}", p.name(), s, nshards, bound_override.clone().unwrap_or_else(|| b.clone())));
         }
     }
     let timeout = Duration::from_secs(if thorough { 3000 } else { 300 });
@@ -428,8 +444,7 @@ fn main() {
         }
     }
     c.rule = format!(
-        "programs = fake hardware (1-2 processors) x workers_per_processor (1-2) x 1-2 spawner threads (each pinned to a processor, 1-2 of spawn/spawn_urgent/spawn_and_forget, then awaits its handles) x {{pool dropped after the spawners were joined | pool dropped concurrently while spawners hold scheduler clones}}; for each program every schedule of all threads (incl. the pool's own workers) with at most {bound} preemptions (single-spawn single-worker programs) / {} preemptions (all other programs) over the hook points; states = schedules executed, transitions = scheduling steps",
-        progs.iter().map(|(_, b)| *b).min().unwrap_or(0)
+        "programs = fake hardware (1-2 processors) x workers_per_processor (1-2) x 1-2 spawner threads (each pinned to a processor, 1-2 of spawn/spawn_urgent/spawn_and_forget, then awaits its handles) x {{pool dropped after the spawners were joined | pool dropped concurrently while spawners hold scheduler clones}}; for each program every schedule of all threads (incl. the pool's own workers) within the program's bound (bounds used: {bound}; 'n' = at most n preemptions with all free choices explored, 'dn' = at most n deviations of any kind from the default schedule, used for programs with five or more threads) over the hook points; states = schedules executed, transitions = scheduling steps"
     );
     c.extra.insert("programs".into(), json!(progs.len()));
     c.extra.insert("preemption_bound".into(), json!(bound));
